@@ -690,4 +690,55 @@ def cleanCheck : Bool :=
 
 example : cleanCheck = true := by decide
 
+/-! ### non-vacuity of the full statement: states before ESTABLISHED, after loss -/
+
+def runRounds (s : Sys) : List Nat → Except String Sys
+  | [] => .ok s
+  | k :: ks =>
+    match fairRound k s with
+    | .ok s' => runRounds s' ks
+    | .error e => .error e
+
+def quietB (s : Sys) : Bool :=
+  match s.a.tcb, s.b.tcb with
+  | some ta, some tb => ta.state == .Established && tb.state == .Established &&
+      ta.outgoing.retransmit.isEmpty && tb.outgoing.retransmit.isEmpty && ta.outgoing.text.isEmpty &&
+      tb.outgoing.text.isEmpty && ta.outgoing.oneshot.isEmpty && tb.outgoing.oneshot.isEmpty &&
+      ta.incoming.segments.isEmpty && tb.incoming.segments.isEmpty
+  | _, _ => false
+
+/-- (1) the SYN is lost (emitted, never delivered) and A's application has written [1,2,3]: A is in SYN-SENT, B has no TCB;
+    (2) passive open, the third segment of the handshake (A's ACK) is lost, A is idle, B has written [7]: A ESTABLISHED,
+    B in SYN-RECEIVED; (3) simultaneous open, both crossing SYNs lost, data written on both sides: SYN-SENT / SYN-SENT -/
+def hsCheck : Bool :=
+  (match Sys.run {} [.open .A 1000 1500, .listen .B 5000 1500] with
+    | .ok (sys0, _) =>
+      (match plainRunB sys0 [.emit .A, .write .A [1, 2, 3]] with
+        | some s => s.b.tcb.isNone && decide (meas s = 11) &&
+            (match runRounds s [1, 1, 1, 1, 4] with
+              | .ok s' => quietB s' && s'.b.delivered == [1, 2, 3]
+              | .error _ => false)
+        | none => false) &&
+      (match plainRunB sys0 [.emit .A, .deliver .B 0, .emit .B, .deliver .A 1, .emit .A, .write .B [7]] with
+        | some s => decide (rk s .A = 3) && decide (rk s .B = 2) &&
+            (match runRounds s [1, 1, 1, 4] with
+              | .ok s' => quietB s' && s'.a.delivered == [7]
+              | .error _ => false)
+        | none => false)
+    | .error _ => false) &&
+  (match Sys.run {} [.open .A 1000 1500, .open .B 5000 1500] with
+    | .ok (sys0, _) =>
+      (match plainRunB sys0 [.emit .A, .emit .B, .write .A [1], .write .B [2]] with
+        | some s => decide (rk s .A = 1) && decide (rk s .B = 1) &&
+            (match runRounds s [1, 1, 1, 1, 4] with
+              | .ok s' => quietB s' && s'.b.delivered == [1] && s'.a.delivered == [2]
+              | .error _ => false)
+        | none => false)
+    | .error _ => false)
+
+/-- in these three reachable pre-ESTABLISHED states rounds as `c01_converges_full_bound` promises them (handshake rounds of
+    one phase, the clean-up round, one round of `2·1 + 2` phases) end with both sides ESTABLISHED, everything empty and the
+    streams complete -/
+example : hsCheck = true := by decide
+
 end Elvis.Tcp
